@@ -196,6 +196,12 @@ def check_call_helper(rule, kind, name, root=None):
     outp, inputs = vparams[0], vparams[1:]
     st = State(kind, vparams)
     probs = []
+    # the proof below is about the whole sequence: a block emitted only under some assembly-time condition
+    # ("the previous clause was also a call, so the backup is still in place") makes it a statement about a
+    # sequence that is not always the one emitted
+    ncond = C.conditional_blocks(b)
+    if ncond:
+        probs.append((b.fn["ln"], "%d of the helper's dynasm blocks are emitted under Rust control flow: save, marshal, call and restore must be emitted whole, every time (what a skipped backup relies on - \"nothing ran since the last call\" - is false as soon as the previous clause wrote its result)" % ncond))
     n_live = LIVE_LANES[kind]
     out_written_at = None
     for i, x in enumerate(ins):
